@@ -1579,4 +1579,173 @@ theorem xorSem {inputs : List String} {ρ : Env} {σ0 : FState} {r : String} (am
   | .imp _ _ :: as => fun hov _ => by simp [overInputsList, overInputs] at hov
 end
 
+/-! ### the statement loop for one definition, and `compile` -/
+
+theorem untargeted_runF (gs : List AGate) (q : Nat) (h : ∀ g ∈ gs, g.wires.getLast? ≠ some q) (f : FState) :
+    runF gs f q = f q := by
+  induction gs generalizing f with
+  | nil => rfl
+  | cons g gs ih =>
+    rw [runF_cons, ih (fun g' hg' => h g' (List.mem_cons_of_mem _ hg'))]
+    unfold stepF
+    split
+    · unfold applyF
+      cases ht : g.wires.getLast? with
+      | none => rfl
+      | some t =>
+        dsimp only
+        split
+        · have : q ≠ t := by
+            rintro rfl; exact h g List.mem_cons_self ht
+          simp [this]
+        · rfl
+    · rfl
+
+theorem addInputs_quiet : ∀ (ns : List String) {u : Unit} {s s' : CState},
+    (addInputs ns).run s = .ok (u, s') →
+    s'.qc.gates = s.qc.gates ∧ s'.expq = s.expq ∧ s'.inputs = s.inputs
+  | [], u, s, s', h => by
+    unfold addInputs at h
+    obtain ⟨_, rfl⟩ := run_pure_ok.mp h
+    exact ⟨rfl, rfl, rfl⟩
+  | n :: ns, u, s, s', h => by
+    unfold addInputs at h
+    obtain ⟨u1, s1, hd, h1⟩ := run_bind_ok.mp h
+    obtain ⟨i0, hadd⟩ := run_discard_ok.mp hd
+    have hs1 := (addQubit_run hadd).2
+    obtain ⟨h2, h3, h4⟩ := addInputs_quiet ns h1
+    rw [hs1] at h2 h3 h4
+    exact ⟨h2, h3, h4⟩
+
+theorem mapQubit_run {name : String} {index : Nat} {promote : Bool} {u : Unit} {s s' : CState}
+    (h : (mapQubit name index promote).run s = .ok (u, s')) :
+    s'.qc.gates = s.qc.gates ∧ s'.qc.marked = s.qc.marked ∧ s'.qc.numQubits = s.qc.numQubits := by
+  unfold mapQubit at h
+  dsimp only at h
+  obtain ⟨qc, s1, hq, h⟩ := run_bind_ok.mp h
+  obtain ⟨rfl, rfl⟩ := getQC_run hq
+  split at h
+  · obtain ⟨u2, s3, hm1, hmatch⟩ := run_bind_ok.mp h
+    have := modQC_run hm1; subst this
+    split at hmatch
+    · obtain ⟨u3, s4, hm2, hm3⟩ := run_bind_ok.mp hmatch
+      have := modQC_run hm2; subst this
+      have := modQC_run hm3; subst this
+      exact ⟨rfl, rfl, rfl⟩
+    · have := modQC_run hmatch; subst this
+      exact ⟨rfl, rfl, rfl⟩
+  · have := modQC_run h; subst this
+    exact ⟨rfl, rfl, rfl⟩
+
+theorem uncomputeLoop_gates {marked : List Nat} :
+    ∀ (gs : List AGate) (unc : List Nat) (keepRev : List AGate) {r : List Nat × List AGate} {s s' : CState},
+    (uncomputeLoop marked gs unc keepRev).run s = .ok (r, s') →
+    ∃ extra, s'.qc.gates.toList = s.qc.gates.toList ++ extra ∧
+      (∀ g ∈ extra, marked.contains g.target = true) ∧ s'.qc.qmap = s.qc.qmap ∧
+      s'.qc.numQubits = s.qc.numQubits
+  | [], unc, keepRev, r, s, s', h => by
+    unfold uncomputeLoop at h
+    obtain ⟨rfl, rfl⟩ := run_pure_ok.mp h
+    exact ⟨[], by simp, by simp, rfl, rfl⟩
+  | g :: gs, unc, keepRev, r, s, s', h => by
+    unfold uncomputeLoop at h
+    dsimp only at h
+    rcases run_ite_ok.mp h with ⟨hc, h⟩ | ⟨_, h⟩
+    · obtain ⟨b, s1, happ, h1⟩ := run_bind_ok.mp h
+      have ha := appendG_run happ
+      obtain ⟨g', _, hgw, hgates, _⟩ := ha.gates
+      have rest : ∀ {s2 : CState}, s2.qc = s1.qc →
+          (uncomputeLoop marked gs (setIns unc g.target) keepRev).run s2 = .ok (r, s') →
+          ∃ extra, s'.qc.gates.toList = s.qc.gates.toList ++ extra ∧
+            (∀ g ∈ extra, marked.contains g.target = true) ∧ s'.qc.qmap = s.qc.qmap ∧
+            s'.qc.numQubits = s.qc.numQubits := by
+        intro s2 hq h2
+        obtain ⟨extra, e1, e2, e3, e4⟩ := uncomputeLoop_gates gs _ _ h2
+        refine ⟨g' :: extra, ?_, ?_, ?_, ?_⟩
+        · rw [e1, hq, hgates]; simp
+        · intro x hx
+          simp only [List.mem_cons] at hx
+          rcases hx with rfl | hx
+          · have : x.target = g.target := by unfold AGate.target; rw [hgw]
+            rw [this]; exact hc
+          · exact e2 x hx
+        · rw [e3, hq]; exact ha.qmap
+        · rw [e4, hq]; exact ha.nq
+      rcases run_ite_ok.mp h1 with ⟨_, h1⟩ | ⟨_, h1⟩
+      · obtain ⟨u, s2, hev, h2⟩ := run_bind_ok.mp h1
+        have := event_run hev; subst this
+        exact rest (s2 := { s1 with events := s1.events ++ ["staleReplay"] }) rfl h2
+      · exact rest rfl h1
+    · exact uncomputeLoop_gates gs _ _ h
+
+theorem uncompute_gates {r : List Nat} {s s' : CState} (h : uncompute.run s = .ok (r, s')) :
+    ∃ extra, s'.qc.gates.toList = s.qc.gates.toList ++ extra ∧
+      (∀ g ∈ extra, g.target ∈ s.qc.marked) ∧ s'.qc.qmap = s.qc.qmap ∧
+      s'.qc.numQubits = s.qc.numQubits := by
+  unfold uncompute at h
+  obtain ⟨qc, s1, hq, h1⟩ := run_bind_ok.mp h
+  obtain ⟨rfl, rfl⟩ := getQC_run hq
+  rcases run_ite_ok.mp h1 with ⟨_, h1⟩ | ⟨_, h1⟩
+  · obtain ⟨_, rfl⟩ := run_pure_ok.mp h1
+    exact ⟨[], by simp, by simp, rfl, rfl⟩
+  · obtain ⟨x, s2, hloop, h2⟩ := run_bind_ok.mp h1
+    obtain ⟨extra, e1, e2, e3, e4⟩ := uncomputeLoop_gates _ _ _ hloop
+    obtain ⟨unc, keepRev⟩ := x
+    dsimp only at h2
+    obtain ⟨u, s3, hm, h3⟩ := run_bind_ok.mp h2
+    obtain ⟨rfl, rfl⟩ := run_pure_ok.mp h3
+    have := modQC_run hm; subst this
+    exact ⟨extra, e1, fun g hg => by simpa using e2 g hg, e3, e4⟩
+
+theorem removeIdentities_run {u : Unit} {s s' : CState} (h : removeIdentities.run s = .ok (u, s')) :
+    s'.qc.gates.toList = removeIdentitiesList s.qc.gates.toList ∧ s'.qc.qmap = s.qc.qmap ∧
+      s'.qc.numQubits = s.qc.numQubits := by
+  unfold removeIdentities at h
+  obtain ⟨qc, s1, hq, h1⟩ := run_bind_ok.mp h
+  obtain ⟨rfl, rfl⟩ := getQC_run hq
+  have := modQC_run h1; subst this
+  exact ⟨by simp, rfl, rfl⟩
+
+theorem expqRemove_run {qs : List Nat} {u : Unit} {s s' : CState} (h : (expqRemove qs).run s = .ok (u, s')) :
+    s'.qc = s.qc := by
+  unfold expqRemove at h
+  have := run_modify_ok.mp h; subst this
+  rfl
+
+/-- the environment built from the argument names and bits reads bit `i` for the `i`-th name -/
+theorem envOf_zip : ∀ {inputs : List String} {x : List Bool} {i : Nat} {n : String},
+    inputs.Nodup → inputs[i]? = some n → envOf (inputs.zip x) n = x.getD i false
+  | [], _, _, _, _, h => by simp at h
+  | m :: ms, [], i, n, _, _ => by simp [envOf]
+  | m :: ms, b :: bs, 0, n, _, h => by
+    have : m = n := by simpa using h
+    subst this
+    simp [envOf]
+  | m :: ms, b :: bs, i + 1, n, hn, h => by
+    obtain ⟨hm, hn'⟩ := List.nodup_cons.mp hn
+    have h' : ms[i]? = some n := by simpa using h
+    have hne : (m == n) = false := by
+      have : n ∈ ms := (mem_of_getElem?' h').1
+      simp only [beq_eq_false_iff_ne, ne_eq]
+      rintro rfl; exact hm this
+    have := envOf_zip (x := bs) hn' h'
+    unfold envOf at this ⊢
+    simp only [List.zip_cons_cons, List.find?_cons, hne]
+    simpa using this
+
+theorem initState_getD (x : List Bool) (N q : Nat) :
+    (initState x N).getD q false = x.getD q false := by
+  unfold initState
+  simp only [List.getD_eq_getElem?_getD, List.getElem?_append]
+  split
+  · rfl
+  · next h =>
+    have h1 : x[q]? = none := by simp at h; simp [h]
+    rw [h1]
+    simp only [List.getElem?_replicate]
+    split <;> rfl
+
+theorem initState_length (x : List Bool) (N : Nat) (h : x.length ≤ N) : (initState x N).length = N := by
+  unfold initState; simp; omega
+
 end QV.Compiler
